@@ -97,12 +97,14 @@ def max_blocks(g):
     return m
 
 
-WINDOW_OPS = {"sliding_reduce", "sliding_window_view", "move_window", "map_overlap", "diff", "cumulative"}
+# operations whose own implementation records the block count of its input (map_blocks(chunks=...) inside the library):
+# the sliding-window family and repeat
+WINDOW_OPS = {"sliding_reduce", "sliding_window_view", "move_window", "map_overlap", "diff", "cumulative", "repeat"}
 
 
 def baked_grid_key(mech, steps):
     """The recorded finding 'Dimension N has k blocks, adjust_chunks specified with m blocks' is about a consumer that
-    baked its input's block count sitting over a *native-kernel substitution* (sliding-window family), which no gate
+    baked its input's block count (the library's own sliding-window kernels and repeat) sitting over a rewrite no gate
     covers.  The same error in a program without such an operation means a gated pushdown changed the grid under the
     consumer: a different mechanism, keyed apart so that it is reported."""
     if "Dimension_has_blocks" in mech and not any(s.get("op") in WINDOW_OPS for s in steps):
